@@ -71,6 +71,12 @@ def run(ctx):
                         K2 = bytes(b ^ 0x5a for b in K); o2 = R.construct(c, [K2], bytes(16) if c == 'threefish' else b''); o2.enc(blk)
                     except Exception: pass
                 if not e1['raised'] and len(e1['obs']) == bl: ev.append(R.ev_crypt(obj, cirec, 'dec', bytes(e1['obs'])))
+            # refused calls in both directions (block of a wrong size), then the round trip again: nothing of a refused call may stay behind
+            for op in ('dec', 'enc'):
+                try: getattr(obj, op)(blocks[-1] + b'x')
+                except Exception: pass
+                e2 = R.ev_crypt(obj, cirec, 'enc', blocks[-1]); ev.append(e2)
+                if not e2['raised'] and len(e2['obs']) == bl: ev.append(R.ev_crypt(obj, cirec, 'dec', bytes(e2['obs'])))
         # the key (and tweak) handed over as a mutable Bits object that its owner edits afterwards: the cipher keeps the key it was built with
         from crysp.bits import Bits
         K = bytes(rnd.randrange(256) for _ in range(n)); T = bytes(rnd.randrange(256) for _ in range(16)) if c == 'threefish' else b''
@@ -82,9 +88,8 @@ def run(ctx):
             except Exception: obj = None
             if obj is not None:
                 cirec = R.ci(c, [K], T); blk = bytes(rnd.randrange(256) for _ in range(bl))
-                probe = R.ev_crypt(R.construct(c, [K], T), cirec, 'enc', blk)
                 e0 = R.ev_crypt(obj, cirec, 'enc', blk)
-                if not probe['raised'] and e0['obs'] == probe['obs']:            # this keying form means the same key as the byte string (else it is C02's business)
+                if True:                                                          # Bits(K, bitorder=1) is the constructors' own conversion of a byte-string key: the same key
                     ev.append(e0)
                     if len(KB) != 8 * n: ev.append(dict(op='new', ci=cirec, raised='KeyObjectChangedByConstructor'))
                     try:
